@@ -140,9 +140,14 @@ func TestWorker(t *testing.T) {
 		tape *core.Tape
 	}
 	core.StartStallWatch(40*time.Second, func(si core.StallInfo) {
+		if si.Sim == nil {
+			si.Sim = core.NewSim(core.NewTape(0))
+		}
 		class := "machinery:stall"
 		detail := fmt.Sprintf("the scheduler saw no quiescent point for %v of real time after %d steps (%d tasks parked, actors enabled=%v): some goroutine is neither parked nor durably blocked", si.Waited.Round(time.Second), si.Steps, si.Parked, si.ActorsEnabled)
-		if si.Parked == 0 && !si.ActorsEnabled && !si.ClientsDone {
+		if si.BubbleExit {
+			detail = fmt.Sprintf("the run has ended but for %v goroutines it started have neither ended nor blocked durably: the code under test keeps goroutines alive across calls (a package-level worker pool?), which this simulator cannot host", si.Waited.Round(time.Second))
+		} else if si.Parked == 0 && !si.ActorsEnabled && !si.ClientsDone {
 			class = "violation:no-progress"
 			detail = fmt.Sprintf("after %d scheduler steps no goroutine is schedulable, the call has not returned and nothing has changed for %v of real time: a goroutine is blocked on an object outside the simulation (a package-level channel or lock) or spins without reaching a yield point", si.Steps, si.Waited.Round(time.Second))
 		}
